@@ -330,6 +330,8 @@ func methodBody(rel, recv, name string) string {
 
 func writeAstFacts(path string) error {
 	type f struct{ name, val, comment string }
+	// (the four body texts below are still written, for the reader of the generated file; nothing pins them any more: the
+	// functions are TRANSLATED — progast.go, namespace PV.FactsAstProg at the end of the file — and tied in Props/C07P.lean)
 	fs := []f{
 		{"setReaderPosBody", normBody("ast/helpers.go", "SetReaderPos"), "ast/helpers.go SetReaderPos"},
 		{"nodeListSetReaderPosBody", methodBody("ast/node_list.go", "NodeList", "SetReaderPos"), "ast/node_list.go NodeList.SetReaderPos"},
@@ -337,7 +339,7 @@ func writeAstFacts(path string) error {
 		{"nonTerminalSetReaderPosBody", methodBody("ast/nonterminal_node.go", "NonTerminalNode", "SetReaderPos"), "ast/nonterminal_node.go (*NonTerminalNode).SetReaderPos"},
 	}
 	var sb strings.Builder
-	sb.WriteString("/- GENERATED by harness/cmd/factgen (-out-ast) from the repository's current source on every run. Do not edit. -/\nnamespace PV.FactsAst\n\n")
+	sb.WriteString("/- GENERATED by harness/cmd/factgen (-out-ast) from the repository's current source on every run. Do not edit. -/\nimport ParsleyVerif.Generated.SlicePrelude\nnamespace PV.FactsAst\n\n")
 	for _, x := range fs {
 		fmt.Fprintf(&sb, "/-- %s -/\ndef %s : String := %s\n\n", x.comment, x.name, strconv.Quote(x.val))
 	}
@@ -372,6 +374,7 @@ func writeAstFacts(path string) error {
 	}
 	fmt.Fprintf(&sb, "/-- the ast.AppendNode calls of Any (argument kinds): it accumulates with AppendNode(acc, result) -/\ndef anyAppendNodeCalls : List String := %s\n\n", q(appendNodeCalls("combinator/any.go", "Any")))
 	fmt.Fprintf(&sb, "/-- the ast.AppendNode calls of Optional: AppendNode(result, EmptyNode(pos)) -/\ndef optionalAppendNodeCalls : List String := %s\n\n", q(appendNodeCalls("combinator/optional.go", "Optional")))
-	sb.WriteString("end PV.FactsAst\n")
+	sb.WriteString("end PV.FactsAst\n\n")
+	sb.WriteString(astProgSection())
 	return os.WriteFile(path, []byte(sb.String()), 0o644)
 }
